@@ -28,10 +28,10 @@ theorem legal_microstep (h : Hooks) (hok : HooksOK h) (fl : Flavor) (m : Machine
   have internal_case : ∀ (as : List ActionRef),
       Inv m (execute h fl m ev { actions := as, internal := true } s) := by
     intro as
-    unfold execute
-    simp only [if_true]
     obtain ⟨h1, h2⟩ := execActions_cfg_err h hok ev.type as s
-    exact ⟨by rw [h1]; exact hinv.legal, by rw [h2]; exact hinv.noerr⟩
+    refine ⟨?_, ?_⟩
+    · rw [execute_cfg_eq]; unfold executeCore; simp only [if_true]; rw [h1]; exact hinv.legal
+    · rw [execute_err_eq]; unfold executeCore; simp only [if_true]; rw [h2]; exact hinv.noerr
   rcases hc with hn | he | ⟨tstr, tgt, nt, ht, hne, hres, htgt, hnh, htne⟩
   · have : planTransition m s.cfg s.hist c = { actions := c.t.actions, internal := true } := by
       unfold planTransition; simp only [hn]
@@ -233,25 +233,25 @@ theorem asyncStart_inv (m : Machine) (env : GEnv) (hwf : WF m.root) (hi : InitOK
     have : e.path ∈ enterDefault [] m.root := by rw [← hp]; exact List.mem_map_of_mem hem
     obtain ⟨n, hn⟩ := enterDefault_at m.root [] m.root rfl hwf e.path this
     exact defAt_isSome_of_at hn
-  obtain ⟨f1, f2⟩ := enterFold_spec hooksAsync hooksAsync_ok .async m (some "___xstate_statemachine_init___")
+  obtain ⟨f1, f2⟩ := enterFold_spec hooksFlagged hooksFlagged_ok .async m (some "___xstate_statemachine_init___")
     (startEntries m).1 { ({} : St) with status := "running" } rfl hv
   have hl : Legal m.root ((startEntries m).1.foldl
-      (enterOne hooksAsync .async m (some "___xstate_statemachine_init___")) { ({} : St) with status := "running" }).cfg := by
+      (enterOne hooksFlagged .async m (some "___xstate_statemachine_init___")) { ({} : St) with status := "running" }).cfg := by
     apply legal_enterDefault_root m.root hwf hk
     intro q
     rw [f2 q, hp]
     simp
   simp only [he]
   simp only [f1, Option.isSome_none, Bool.false_eq_true, if_false]
-  have ht := transientLoop_inv hooksAsync hooksAsync_ok .async m env hwf hi hsel m.maxIterations _ hl
+  have ht := transientLoop_inv hooksFlagged hooksFlagged_ok .async m env hwf hi hsel m.maxIterations _ hl
   split
   · exact ⟨ht, fun hst => by simp at hst⟩
   · rename_i herr
-    have hnone : (transientLoop hooksAsync Flavor.async m env m.maxIterations
-        ((startEntries m).1.foldl (enterOne hooksAsync .async m (some "___xstate_statemachine_init___"))
+    have hnone : (transientLoop hooksFlagged Flavor.async m env m.maxIterations
+        ((startEntries m).1.foldl (enterOne hooksFlagged .async m (some "___xstate_statemachine_init___"))
           { ({} : St) with status := "running" })).err = none := by
-      cases hh : (transientLoop hooksAsync Flavor.async m env m.maxIterations
-        ((startEntries m).1.foldl (enterOne hooksAsync .async m (some "___xstate_statemachine_init___"))
+      cases hh : (transientLoop hooksFlagged Flavor.async m env m.maxIterations
+        ((startEntries m).1.foldl (enterOne hooksFlagged .async m (some "___xstate_statemachine_init___"))
           { ({} : St) with status := "running" })).err with
       | none => rfl
       | some _ => simp [hh] at herr
